@@ -59,6 +59,9 @@ type Failure struct {
 	Shard    int             `json:"shard"`
 	Error    string          `json:"error"`
 	Case     json.RawMessage `json:"case"`
+	// Variant is the build variant of the process that found the failure
+	// (the replay uses the same binary: race detector, 32-bit platform ...).
+	Variant string `json:"variant,omitempty"`
 }
 
 type state struct {
@@ -411,8 +414,12 @@ func RecordFailure(kind string, c any, cerr error) {
 	}
 	_ = os.MkdirAll(st.replays, 0o755)
 	name := fmt.Sprintf("%s-seed%d-shard%d.json", sanitize(kind), st.seed, st.shard)
+	if v := Variant(); strings.HasPrefix(v, "x86") {
+		// The same kind runs in the 64-bit and in the 32-bit binary.
+		name = fmt.Sprintf("%s@%s-seed%d-shard%d.json", sanitize(kind), sanitize(v), st.seed, st.shard)
+	}
 	p := filepath.Join(st.replays, name)
-	f := Failure{Property: st.id, Kind: kind, Seed: st.seed, Shard: st.shard, Error: cerr.Error(), Case: b}
+	f := Failure{Property: st.id, Kind: kind, Seed: st.seed, Shard: st.shard, Error: cerr.Error(), Case: b, Variant: Variant()}
 	out, _ := json.MarshalIndent(f, "", " ")
 	if werr := os.WriteFile(p, out, 0o644); werr == nil && !slices.Contains(st.failFiles, p) {
 		st.failFiles = append(st.failFiles, p)
